@@ -290,3 +290,11 @@ declare_always_truthy("Decoder", "Row")
 @spec("json_loads_")
 def _json_loads_spec(ip, a, kw):
     return ZV(L.fn("json_loads", L.S, L.V)(as_str(a[0])), "JDict")
+
+R.METHODS[("Config", "trace_logger")] = lambda ip, r, a, k, n: ZV(f("config_logger", L.V, L.V)(r.term), "Logger")
+R.METHODS[("Config", "code_filter")] = lambda ip, r, a, k, n: ZV(f("config_filter", L.V, L.V)(r.term), "Opt[Filter]")
+R.METHODS[("Config", "sample_rate")] = lambda ip, r, a, k, n: ZV(f("config_rate", L.V, L.V)(r.term), "Opt[int]")
+for n_ in ("config_logger", "config_filter", "config_rate"):
+    declare_pred(n_, L.V, L.V)
+R.EXTERNALS["monkeytype.config:get_default_config"] = R.ExtFn(lambda ip, a, kw, node: ZV(L.const("default_config"), "Config"))
+R.SPEC["default_config"] = ZV(L.const("default_config"), "Config")
